@@ -19,7 +19,7 @@ ROOT = os.path.dirname(os.path.dirname(os.path.abspath(__file__)))
 REPO = os.environ.get("VERIF_REPO", "/repo")
 NPROC = int(os.environ.get("VERIF_NPROC", "16"))
 # sensitivity runs against a scratch copy (VERIF_REPO set) never touch the committed evidence / replays
-OUT = ROOT if "VERIF_REPO" not in os.environ else os.path.join(ROOT, ".work", "alt")
+OUT = ROOT if not (os.environ.get("VERIF_REPO") or os.environ.get("VERIF_ALT_OUT")) else os.path.join(ROOT, ".work", "alt")
 
 
 def setup_paths():
